@@ -231,7 +231,7 @@ var $internalize = (v, t, recv, seen, makeWrapper) => {
             return parseInt(v) >>> 0;
         case $kindInt64:
         case $kindUint64:
-            return new t(0, v);
+            return new t(0, typeof v === "number" ? v : parseInt(v));
         case $kindFloat32:
             return $fround($parseFloat(v));
         case $kindFloat64:
